@@ -288,8 +288,11 @@ LEAVES = [
      whole(POS, "borda_sat_func", {"project in ballot": "inBallot", "len(ballot)": "len", "ballot.position(project)": "pos"}, bools=("inBallot",))),
     # ---- C15: instance predicates
     ("C15", "isFeasible", "(total budget : Rat)", "Bool", whole(INST, "Instance.is_feasible", {"total_cost(projects)": "total", "self.budget_limit": "budget"}, ret_bool=True)),
-    ("C15", "isTrivial", "(total budget minCost : Rat)", "Bool",
-     whole(INST, "Instance.is_trivial", {"total_cost(self)": "total", "self.budget_limit": "budget", "min((p.cost for p in self))": "minCost"}, ret_bool=True)),
+    ("C15", "isTrivial", "(total budget : Rat) (noneFits : Bool)", "Bool",
+     whole(INST, "Instance.is_trivial", {"total_cost(self)": "total", "self.budget_limit": "budget",
+                                         "all((self.budget_limit < p.cost for p in self))": "noneFits"}, bools=("noneFits",), ret_bool=True)),
+    ("C15", "singleDoesNotFit", "(budget c : Rat)", "Bool",
+     exprc(INST, "Instance.is_trivial", "self.budget_limit < p.cost", {"self.budget_limit": "budget", "p.cost": "c"}, kind=ast.Compare)),
     ("C15", "fitsOnTop", "(inW : Bool) (c cost budget : Rat)", "Bool",
      test(INST, "Instance.is_exhaustive", "p.cost + cost", {"p not in projects": "(!inW)", "p.cost": "c", "cost": "cost", "self.budget_limit": "budget"}, bools=("(!inW)",))),
     ("C15", "cheapestOvershoots", "(c acc budget : Rat)", "Bool",
@@ -419,6 +422,21 @@ def regenerate(only=None):
     """rewrite lean/Gen/<Prop>.lean from /repo; returns the list of translation problems"""
     os.makedirs(GEN_DIR, exist_ok=True)
     problems = []
+    # table generators (container op tables for C17, write summaries for C20)
+    if only in (None, "C17"):
+        try:
+            from . import translate_containers
+
+            translate_containers.regenerate(core.REPO, core.LEAN_DIR)
+        except Exception as e:  # noqa: BLE001
+            problems.append("C17.containers: %r" % (e,))
+    if only in (None, "C20"):
+        try:
+            from . import translate_effects
+
+            translate_effects.regenerate(core.REPO, core.LEAN_DIR)
+        except Exception as e:  # noqa: BLE001
+            problems.append("C20.effects: %r" % (e,))
     for prop in props_with_leaves():
         if only is not None and prop != only:
             continue
